@@ -47,13 +47,16 @@ def _block3_traces(ck, wd, exe, sf, nsys, tier, seed):
     if r2.rc != 0 or not rep:
         raise vlib.Infra("Trace_Block3 failed:\n" + r2.out[-2000:])
     best = min(rep, key=lambda r: len(r["deviations"]))
-    for d in best["deviations"]:
+    # A step that Block3.tla does not have means that the code no longer follows the specified algorithm.  That is not by
+    # itself a violation of C11 (another correct active-set strategy would also deviate): it is reported as drift, with the
+    # first records, and the verdict on the property comes from the results (KKT, distance to the exact minimiser) above.
+    ck.cov["block3_executions_not_explained_by_the_algorithm_spec"] = len(best["deviations"])
+    for d in best["deviations"][:5]:
         k = d["line"] - 1          # find the execution this record belongs to
         while k > 0 and not lines[k].startswith('{"e":"start"'):
             k -= 1
-        ck.violation({"class": "block3-" + d["kind"], "phase": d["e"], "model_pc": d["pc"]},
-                     {"what": "nnls_normal_block3 took a step that the algorithm of Block3.tla does not have", "system": json.loads(lines[k]),
-                      "record": json.loads(lines[d["line"] - 1]), "previous_records": [json.loads(x) for x in lines[max(k, d["line"] - 4): d["line"] - 1]]})
+        ck.drift("nnls_normal_block3 took a step that Block3.tla does not have (phase %s, model at %s): system %s record %s" % (
+            d["e"], d["pc"], lines[k].strip()[:200], lines[d["line"] - 1].strip()[:300]))
     return nexec
 
 
